@@ -40,7 +40,7 @@ SIG_CLASSES = ["length", "padded", "zero-at-48", "flag-grid", "non-subgroup", "t
 
 def required_classes(tier):
     out = ["key:" + c for c in KEY_CLASSES] + ["sig:" + c for c in SIG_CLASSES]
-    out += ["key:cancelling-set", "ep:KeyValidate", "ep:Verify", "ep:PopVerify", "ep:AggregateVerify", "ep:FastAggregateVerify", "valid-call-reaching-pairing", "list-position"]
+    out += ["key:valid-plus-small-order", "key:identity-among-honest", "key:cancelling-set", "ep:KeyValidate", "ep:Verify", "ep:PopVerify", "ep:AggregateVerify", "ep:FastAggregateVerify", "valid-call-reaching-pairing", "list-position"]
     return out
 
 
@@ -221,6 +221,30 @@ def run(rec):
             # signature side: S + T and S' - T are each outside the subgroup
             if q in (3, 0):
                 continue
+        # ---- a VALID signer's key moved out of the subgroup by a small-order point, offered with that signer's honest signature:
+        #      e(H(m), P + T) = e(H(m), P), so the pairing equation still holds and only key validation can answer False
+        for q in ((3, 11, 0) if not quick else ((3, 11, 0)[(rec.shard + rd) % 3],)):
+            T = CG.torsion_point(E1, order1, q, rng) if q else E1.mul(E1.rand_point(rng), R)
+            if T is None:
+                continue
+            kT = Z.enc_g1(E1.add(E1.mul(G1m, sk), T))
+            rec.case("key:valid-plus-small-order", ("kT", q, kT), sample={"input": "pk + T with the honest signature of pk", "order_of_T": q or "large"})
+            call(S.Verify, kT, msg, sig)
+            call(suites["basic"].Verify, kT, msg, bmon.m_sign("basic", sk, msg))
+            call(Pp.Verify, kT, msg, sig_pop)
+            call(S.AggregateVerify, [kT, pk2], [msg, msg2], agg2)
+            call(suites["basic"].AggregateVerify, [pk2, kT], [msg2, msg], MB.aggregate([bmon.m_sign("basic", sk2, msg2), bmon.m_sign("basic", sk, msg)]))
+            call(Pp.FastAggregateVerify, [kT, pk2], msg, MB.aggregate([sig_pop, bmon.m_sign("pop", sk2, msg)]))
+        # ---- the identity key next to honest signers, paired with a message nobody signed (its pairing factor is 1)
+        idk = Z.enc_g1(None)
+        rec.case("key:identity-among-honest", ("idk", suite), sample={"input": "identity key appended to an honest signer set"})
+        for Sx, sname in ((S, suite), (suites["basic"], "basic"), (suites["aug"], "aug")):
+            a2 = MB.aggregate([bmon.m_sign(sname, sk, msg), bmon.m_sign(sname, sk2, msg2)])
+            call(Sx.AggregateVerify, [pk, pk2, idk], [msg, msg2, b"nobody signed this"], a2)
+            call(Sx.AggregateVerify, [idk, pk, pk2], [b"nobody signed this", msg, msg2], a2)
+            call(Sx.AggregateVerify, [idk], [msg], Z.enc_g2(None))
+        call(Pp.FastAggregateVerify, [idk], msg, Z.enc_g2(None))
+        call(Pp.FastAggregateVerify, [pk, idk], msg, sig_pop)
         # ---- hostile signatures (valid key, so only the signature checks can reject)
         hs = hostile_sigs(rng, sig, quick)
         for j, (cls, s) in enumerate(hs):
